@@ -165,13 +165,29 @@ def context_templates():
     return out
 
 
+BOOL_EXPRS = ["(RsV == 1)", "(RsV < RtV)", "(!RsV)", "(RsV && RtV)", "((RsV < 2) || (RtV > 3))", "(RsV ? (RtV == 1) : (RtV < 2))",
+              "(RsV ? !RtV : (RtV && RsV))", "((RsV == 1) == (RtV == 2))", "((RsV < 1) ? (RtV < 2) : 0)", "(RsV ? 1 : (RtV < 2))",
+              "(RsV ? (RtV ? (RsV == 2) : (RtV != 3)) : (RsV >= RtV))", "(!(RsV < RtV))"]
+BOOL_CONSUMERS = ["{ RdV = @; }", "{ RddV = @; }", "{ int8_t q = @; RdV = q; }", "{ uint64_t q; q = @; RddV = q; }",
+                  "{ if (@) { RdV = 1; } }", "{ RdV = @ ? 3 : 4; }", "{ RdV = RsV + @; }", "{ RdV = @ << 2; }", "{ RdV = (@ && RtV); }",
+                  "{ RdV = !@; }", "{ RdV = clz32(@); }", "{ mem_store_u8(RtV, @); }", "{ for (i = 0; @ && (i < 2); i++) { RxV += 1; } }",
+                  "{ PdV = @; }", "{ RdV = (@ == 1); }", "{ RdV = -@; }", "{ RdV = ~@; }", "{ JUMP(@); }", "{ RdV = (int16_t) @; }",
+                  "{ RxV += @; }", "{ RdV = (@ ? RsV : RtV) + 1; }"]
+
+
+def bool_consumer_templates():
+    """every shape of truth-valued expression x every kind of consumer: conditions must receive booleans, everything
+    else the 0/1 integer"""
+    return [c.replace("@", b) for b in BOOL_EXPRS for c in BOOL_CONSUMERS]
+
+
 def template_texts(which):
     from . import c07, c09, c15
     t = [x for _, x in c07.spelling_cells()] + list(c15.TEMPLATES)
     if which != "C10":
         t += list(c09.DEAD_ARM_TEMPLATES)
     if which in ("C11", "C10", "C12"):
-        t += context_templates()
+        t += context_templates() + bool_consumer_templates()
     return t
 
 
